@@ -1,4 +1,4 @@
-//@unit state_wait  props=C10,C09  min_verified=2
+//@unit state_wait  props=C10,C09,C12  min_verified=4
 // C10: the two polling loops that wait for an AL state, extracted WHOLE with their timeout scope made explicit (rule R18):
 // MainDevice::wait_for_state (broadcast read, expected counter = number of SubDevices) and SubDeviceRef::wait_for_state
 // (one device, used while a SubDevice is created).  The devices are arbitrary: a status read returns ANY AlControl value or fails.
@@ -43,6 +43,30 @@ pub uninterp spec fn al_status_read(c: Reads, wkc: Option<u16>, st: AlControl) -
 /// processes a broadcast read increments the counter once)
 pub uninterp spec fn counter_of(c: Reads, len: u16, wkc: u16) -> bool;
 pub struct MainDev { pub timeouts: Timeouts, pub n: u16 }
+
+/*@type file=src/command/writes.rs name=Writes derive="Clone, Copy, PartialEq, Eq, Debug" @*/
+/*@type file=src/command/writes.rs name=WrappedWrite derive="Clone, Copy, Debug" @*/
+/*@type file=src/eeprom/types.rs name=SiiOwner derive="Clone, Copy, PartialEq, Eq, Debug" @*/
+/// "the value `v` went out with this write command and was acknowledged by exactly one device"
+pub uninterp spec fn cfg_sent(cmd: Writes, wkc: Option<u16>, v: int) -> bool;
+pub trait CfgVal { spec fn val(&self) -> int; }
+impl CfgVal for u16 { open spec fn val(&self) -> int { *self as int } }
+impl CfgVal for SiiOwner { open spec fn val(&self) -> int { if *self is Master { 0 } else { 1 } } }     // discriminants of the enum (C19)
+impl WrappedWrite {
+/*@fn file=src/command/writes.rs impl="impl WrappedWrite" name=new canary=0
+    ensures r.command == command, r.wkc == Some(1u16), r.len_override is None
+@*/
+    /// real body: src/command/writes.rs (unit `wrapped`)
+    #[verifier::external_body]
+    pub async fn send<D: CfgVal>(self, maindevice: &MainDev, data: D) -> (r: Result<(), Error>)
+        ensures r is Ok ==> cfg_sent(self.command, self.wkc, data.val())
+    { unimplemented!() }
+}
+impl Command {
+/*@fn file=src/command/mod.rs impl="impl Command" name=fpwr canary=0
+    ensures r.command == (Writes::Fpwr { address, register }), r.wkc == Some(1u16)
+@*/
+}
 
 impl WrappedRead {
 /*@fn file=src/command/reads.rs impl="impl WrappedRead" name=new canary=0
@@ -115,10 +139,45 @@ impl MainDev {
 @*/
 }
 
+/// "the AL control request for `st` was written to station `addr` and acknowledged without error"
+pub uninterp spec fn state_requested(addr: u16, st: SubDeviceState) -> bool;
+pub struct Identity { pub _p: u8 }
+/// "`id` is the identity block decoded from the EEPROM of the device at `addr`"
+pub uninterp spec fn identity_of(addr: u16, id: Identity) -> bool;
+pub struct Eeprom { pub addr: u16 }
+impl Eeprom {
+    #[verifier::external_body]
+    pub async fn identity(&self) -> (r: Result<Identity, Error>) ensures r is Ok ==> identity_of(self.addr, r->Ok_0) { unimplemented!() }
+}
 pub struct SubDeviceRef<'a> { pub maindevice: &'a MainDev, pub configured_address: u16 }
 impl<'a> SubDeviceRef<'a> {
+/*@fn file=src/subdevice/mod.rs impl="impl<'maindevice, S> SubDeviceRef<'maindevice, S>" name=write subst="impl Into<u16>=>RegisterAddress" props=C09
+    ensures r.command == (Writes::Fpwr { address: self.configured_address, register: register as u16 }), r.wkc == Some(1u16)
+@*/
+/*@fn file=src/subdevice/mod.rs impl="impl<'maindevice, S> SubDeviceRef<'maindevice, S>" name=set_eeprom_mode props=C09,C12
+    ensures
+        // EEPROM ownership: first 2 ("owner = master, cancel PDI access") then the requested owner, both to register 0x0500 of THIS device
+        r is Ok ==> cfg_sent(Writes::Fpwr { address: self.configured_address, register: 0x0500 }, Some(1u16), 2)
+            && cfg_sent(Writes::Fpwr { address: self.configured_address, register: 0x0500 }, Some(1u16), mode.val()),
+@*/
+    /// `SubDeviceEeprom::new(DeviceEeprom::new(..))` and its identity() (units subdevice_eeprom / eeprom_device)
+    #[verifier::external_body]
+    pub fn eeprom(&self) -> (r: Eeprom) ensures r.addr == self.configured_address { unimplemented!() }
 /*@fn file=src/subdevice/mod.rs impl="impl<'maindevice, S> SubDeviceRef<'maindevice, S>" name=read subst="impl Into<u16>=>RegisterAddress" props=C10
     ensures r.command == (Reads::Fprd { address: self.configured_address, register: register as u16 })
+@*/
+    /// unit pdi_config (request_subdevice_state_nowait extracted whole): Ok only if the AL control write was acknowledged by this
+    /// device without the error bit
+    #[verifier::external_body]
+    pub async fn request_subdevice_state_nowait(&self, desired_state: SubDeviceState) -> (r: Result<(), Error>)
+        ensures r is Ok ==> state_requested(self.configured_address, desired_state)
+    { unimplemented!() }
+/*@fn file=src/subdevice/mod.rs impl="impl<'maindevice, S> SubDeviceRef<'maindevice, S>" name=request_subdevice_state props=C10
+    ensures
+        // the waiting variant: the request was acknowledged by THIS device and THIS device was then seen in the requested state
+        r is Ok ==> state_requested(self.configured_address, desired_state)
+            && exists|st: AlControl| #[trigger] al_status_read(Reads::Fprd { address: self.configured_address, register: 0x0130 }, None, st)
+                && st.state == desired_state,
 @*/
 /*@fn file=src/subdevice/mod.rs impl="impl<'maindevice, S> SubDeviceRef<'maindevice, S>" name=wait_for_state subst=".receive::<AlControl>(self.maindevice)=>.receive_al(self.maindevice)" timeouts=1 props=C10 attr="#[verifier::loop_isolation(false)] #[verifier::allow_complex_invariants]" __brk0="Result<(), Error>"
     ensures
@@ -134,6 +193,29 @@ impl<'a> SubDeviceRef<'a> {
     decreases __dl.left@
 @*/
 }
+
+impl<'a> SubDeviceRef<'a> {
+    pub fn new(maindevice: &'a MainDev, configured_address: u16, state: ()) -> (r: Self)
+        ensures r.configured_address == configured_address
+    { SubDeviceRef { maindevice, configured_address } }
+}
+#[allow(non_upper_case_globals)]
+impl SubDeviceState {
+    // every discriminant of the real enum (src/subdevice_state.rs), so that naming another state is decided, not a lost anchor
+    pub const None: SubDeviceState = SubDeviceState(0x00); pub const Init: SubDeviceState = SubDeviceState(0x01); pub const PreOp: SubDeviceState = SubDeviceState(0x02);
+    pub const Bootstrap: SubDeviceState = SubDeviceState(0x03); pub const SafeOp: SubDeviceState = SubDeviceState(0x04); pub const Op: SubDeviceState = SubDeviceState(0x08);
+}
+
+// ---- the head of SubDevice::new (R6 fragment, from the first statement to the identity read; the tail is in unit init_addr) ----
+/*@fragment file=src/subdevice/mod.rs impl="impl SubDevice" fn=new from="@start" to="let identity = eeprom.identity().await?;" name=subdevice_new_head qual="pub async" sig="maindevice: &MainDev, index: u16, configured_address: u16 -> (r: Result<Identity, Error>)" tail="Ok(identity)" props=C09
+    ensures
+        // before anything is read: THIS device (its own station address) was seen in INIT, EEPROM ownership was handed to the
+        // MainDevice (2, then Master = 0, to 0x0500 of this device), and the identity comes from THIS device's EEPROM
+        r is Ok ==> (exists|st: AlControl| #[trigger] al_status_read(Reads::Fprd { address: configured_address, register: 0x0130 }, None, st) && st.state == SubDeviceState(0x01))
+            && cfg_sent(Writes::Fpwr { address: configured_address, register: 0x0500 }, Some(1u16), 2)
+            && cfg_sent(Writes::Fpwr { address: configured_address, register: 0x0500 }, Some(1u16), 0)
+            && identity_of(configured_address, r->Ok_0),
+@*/
 
 } // verus!
 fn main() {}
